@@ -154,9 +154,18 @@ class VecInterp(Interp):
 
     def project(self, v, pr):
         if pr == "deref":
-            t = self.target(v)
-            if t is not v:
-                return t
+            # one level only (a `&mut &[u8]` holds a reference to a reference)
+            if isinstance(v, tuple) and v and v[0] == "ref":
+                x = self.env.get(v[1])
+                for p2 in v[2]:
+                    x = self.project(x, p2)
+                return x
+            if isinstance(v, tuple) and v and v[0] == "refval":
+                return v[1]
+            if isinstance(v, tuple) and v and v[0] == "refcell":
+                return v[1][v[2]]
+            if isinstance(v, (list, dict)):
+                return v           # a vector / struct value used where a reference to it is expected
         if isinstance(pr, dict) and "idx" in pr:
             v = self.target(v)
             i = self.env[pr["idx"]]
@@ -198,8 +207,10 @@ class VecInterp(Interp):
             return ("opaque", c)
         if c.startswith("core::panicking::") or c.endswith("::begin_panic") or "panic_fmt" in c or "panic_display" in c:
             raise Panic("explicit panic at %s:%s" % (t["sp"]["file"], t["sp"]["line"]))
-        if re.search(r"core::fmt::rt::Argument::<'_>::new_\w+$|core::fmt::Arguments::<'_>::new\w*$|fmt::Arguments::<'a>::new\w*$", c):
+        if re.search(r"core::fmt::rt::Argument::<'_>::new_\w+$|core::fmt::Arguments::<'\w+>::(new\w*|from_str)$", c):
             return ("opaque", c)
+        if c.startswith("anyhow::"):
+            return "error value"
         raw = [self.operand(a) for a in t["args"]]
         a = [self.target(x) for x in raw]
         disp = t.get("callee_disp", "")
